@@ -276,7 +276,7 @@ static Inp regular_input(long idx, Rng &r, int nmax) {
 //---------------------------------------------------------------------------
 // A case: the configs of one input under every fill pattern; report
 //---------------------------------------------------------------------------
-static std::vector<int> g_fills;
+static std::vector<int> g_fills; static bool g_history = true;
 static std::string component_of(const Config &c, const std::string &what) {     // which component a differing digest points at
     if (what == "hierarchy" || what == "exception") return std::string("hierarchy:") + (c.relax_only ? "relaxation-only" : COARS[c.coars]);
     if (what == "precond_apply") return std::string("relaxation:") + RELAX[c.relax];
@@ -285,10 +285,15 @@ static std::string component_of(const Config &c, const std::string &what) {     
 static void run_case(Case &c, const Inp &in, const std::vector<Config> &cfgs, uint64_t seed) {
     std::set<std::string> seen; auto fail_once = [&](const std::string &key, const std::string &what, const J &d) { if (seen.insert(key).second) c.fail(key, what, d); else vf::obs_sum("suppressed_repeat_failures"); };
     std::vector<BatchResult> res;
-    for (size_t fi = 0; fi < g_fills.size(); ++fi) res.push_back(run_batch(in, cfgs, g_fills[fi], seed + 1000 * fi));
+    std::vector<std::string> pname;
+    for (size_t fi = 0; fi < g_fills.size(); ++fi) { res.push_back(run_batch(in, cfgs, g_fills[fi], seed + 1000 * fi)); pname.push_back(vf::alloc::fill_name(g_fills[fi])); }
+    if (g_history) {    // a different history: the same runs in reverse order (what the process did before must not matter)
+        std::vector<Config> rev(cfgs.rbegin(), cfgs.rend()); BatchResult rr = run_batch(in, rev, g_fills[0], seed + 77777); const int N = (int)cfgs.size();
+        std::reverse(rr.recs.begin(), rr.recs.end()); for (auto &cr : rr.crashes) cr.first = N - 1 - cr.first;
+        res.push_back(rr); pname.push_back(std::string(vf::alloc::fill_name(g_fills[0])) + "+reversed-order"); }
     long runs = 0, exceptions = 0, nonconv = 0;
     for (size_t fi = 0; fi < res.size(); ++fi) {
-        const char *fn = vf::alloc::fill_name(g_fills[fi]);
+        const char *fn = pname[fi].c_str();
         for (auto &cr : res[fi].crashes) { const Config &cf = cfgs[cr.first]; ++c.checks;
             fail_once(cr.second + ":" + (cf.relax_only ? RELAX[cf.relax] : COARS[cf.coars]), "run ended in a signal / sanitizer abort instead of a return or an exception (" + cf.name() + ", heap fill " + fn + "): " + res[fi].crash_text, J().s("config", cf.name()).s("fill", fn)); }
         if (res[fi].leak) { ++c.checks; size_t p = res[fi].leak_text.find("ERROR: LeakSanitizer"); fail_once("crash:lsan:leak:" + first_amgcl_frame(res[fi].leak_text, p == std::string::npos ? 0 : p), "LeakSanitizer: memory allocated during the runs of this case is no longer reachable: " + res[fi].leak_text.substr(0, 1200), J().s("fill", fn)); }
@@ -303,16 +308,16 @@ static void run_case(Case &c, const Inp &in, const std::vector<Config> &cfgs, ui
         std::string diffw;
         if (a.dig.size() != b.dig.size()) diffw = a.dig.size() && a.dig[0].first == "exception" ? "exception" : (b.dig.size() && b.dig[0].first == "exception" ? "exception" : "hierarchy");
         else for (size_t q = 0; q < a.dig.size(); ++q) if (a.dig[q] != b.dig[q]) { diffw = a.dig[q].first == b.dig[q].first ? a.dig[q].first : "exception"; break; }
-        if (!diffw.empty()) fail_once("heap-dependent:" + component_of(cfgs[k], diffw), std::string("result depends on the previous heap contents: ") + diffw + " differs between fill " + vf::alloc::fill_name(g_fills[0]) + " and fill " + vf::alloc::fill_name(g_fills[fi]) + " (" + cfgs[k].name() + ")",
-                                      J().s("config", cfgs[k].name()).s("fill_a", vf::alloc::fill_name(g_fills[0])).s("fill_b", vf::alloc::fill_name(g_fills[fi])).s("differs", diffw));
+        if (!diffw.empty()) fail_once("heap-dependent:" + component_of(cfgs[k], diffw), std::string("result depends on the previous heap contents / allocation history: ") + diffw + " differs between pass " + pname[0] + " and pass " + pname[fi] + " (" + cfgs[k].name() + ")",
+                                      J().s("config", cfgs[k].name()).s("fill_a", pname[0]).s("fill_b", pname[fi]).s("differs", diffw));
     }
     vf::obs_sum("runs_completed", (double)runs); vf::obs_sum("runs_ending_in_exception", (double)exceptions); vf::obs_sum("runs_reporting_nonconvergence", (double)nonconv); vf::obs_sum("fill_pairs_compared", (double)compared);
-    for (int f : g_fills) vf::obs_add("fill_patterns", vf::alloc::fill_name(f));
+    for (auto &f : pname) vf::obs_add("fill_patterns", f);
     c.nontrivial((long)cfgs.size());
 }
 
 static void sub_heapfill() {
-    long N = vf::opt_int("inputs", vf::tier(18, 240)); int nmax = (int)vf::opt_int("nmax", vf::tier(400, 900)); int per = (int)vf::opt_int("cells", vf::tier(12, 18));
+    long N = vf::opt_int("inputs", vf::tier(72, 720)); int nmax = (int)vf::opt_int("nmax", vf::tier(600, 1500)); int per = (int)vf::opt_int("cells", vf::tier(12, 18));
     for (long idx = 0; idx < N; ++idx) {
         if (!vf::selected("heapfill", idx)) continue;
         Rng r(vf::case_seed("heapfill", idx)); Inp in = regular_input(idx, r, nmax);
@@ -345,7 +350,7 @@ static void sub_degenerate() {
 
 int main(int argc, char **argv) {
     vf::init(argc, argv);
-    g_fork = vf::opt_int("fork", 1) != 0;
+    g_fork = vf::opt_int("fork", 1) != 0; g_history = vf::opt_int("history", 1) != 0;
     { std::stringstream ss(vf::opt("fills", VF_NEW_REPLACED ? "00,ff,aa,55,rnd" : "native")); std::string t; while (std::getline(ss, t, ',')) { int m = vf::alloc::fill_from_name(t); if (m < 0) { fprintf(stderr, "bad fill %s\n", t.c_str()); return 3; }
         if (!VF_NEW_REPLACED && m != vf::alloc::FNATIVE) { fprintf(stderr, "this binary was built with the native allocator (-DVF_NATIVE_NEW): only --fills=native\n"); return 3; } g_fills.push_back(m); } }
     if (omp_get_max_threads() != 1) { fprintf(stderr, "c10_heap must run single-threaded (property statement; fork safety)\n"); return 3; }
